@@ -120,6 +120,12 @@ fn check_unary(item: &str, _ctx: &Ctx) -> Outcome {
         ("PRINT INT(A%)".into(), Exp::Val(n)),
         ("B%=A%:PRINT B%".into(), Exp::Val(n)),
         ("PRINT 0-A%".into(), if n == -32768 { Exp::Err("?OVERFLOW") } else { Exp::Val(-n) }),
+        // every negation is checked on its own: two of them do not cancel out
+        ("PRINT -(-A%)".into(), if n == -32768 { Exp::Err("?OVERFLOW") } else { Exp::Val(n) }),
+        ("PRINT - -A%".into(), if n == -32768 { Exp::Err("?OVERFLOW") } else { Exp::Val(n) }),
+        ("C%=7:C%=-(-A%):PRINT C%".into(), if n == -32768 { Exp::Err("?OVERFLOW") } else { Exp::Val(n) }),
+        ("PRINT ABS(-A%)".into(), if n == -32768 { Exp::Err("?OVERFLOW") } else { Exp::Val(n.abs()) }),
+        ("PRINT -ABS(A%)".into(), if n == -32768 { Exp::Err("?OVERFLOW") } else { Exp::Val(-n.abs()) }),
     ];
     for (line, exp) in &cases {
         let got = run_line(&mut t, line);
@@ -263,6 +269,51 @@ fn pick_operand(t: &mut Tape) -> i64 {
         }
         _ => t.u16() as i64 - 32768,
     }
+}
+
+// ------------------------------------------------------------------ Integer constants spelled with a fraction or exponent
+
+/// `<decimal spelling>%`: whether such a spelling is accepted at all is not documented, but a
+/// constant is never silently given another value: a BASIC error, or exactly floor(value) when
+/// that lies in -32768..32767.
+fn gen_suffixed(part: usize, parts: usize, _th: bool, emit: &mut dyn FnMut(&str)) {
+    let bodies = [
+        "4E4", "32768.5", "1E5", "32767.5", "2.5", "1E3", "3.2768E4", "32768", "40000", "65536", "1D5", "32767", "32767.0", "3.2767E4", "1E38", "1D300", "0.5", "9.99E3", "32767.9",
+        "327670E-1", "32768E0", ".5E5", "5.", "12345.678", "1E-3",
+    ];
+    for (i, b) in bodies.iter().enumerate() {
+        if i % parts == part {
+            emit(b);
+        }
+    }
+}
+
+fn check_suffixed(item: &str, _ctx: &Ctx) -> Outcome {
+    let v: f64 = match item.replace('D', "E").parse() {
+        Ok(v) => v,
+        Err(_) => return Outcome::discard("bad item"),
+    };
+    let fl = v.floor();
+    let allowed: Option<String> = if (-32768.0..=32767.0).contains(&fl) { Some(fmt_int(fl as i64)) } else { None };
+    let mut t = Term::new();
+    for line in [format!("PRINT {}%", item), format!("C%=7:C%={}%:PRINT C%", item), format!("PRINT -{}%", item), format!("PRINT {}%+0", item)] {
+        let got = run_line(&mut t, &line);
+        let neg = line.starts_with("PRINT -");
+        let ok = got.starts_with('?')
+            || match &allowed {
+                Some(a) if !neg => got == *a,
+                Some(_) => got == fmt_int(-(fl as i64)),
+                None => false,
+            };
+        if !ok {
+            return Outcome::fail(
+                "suffixed-constant-silently-changed",
+                format!("{} gave {:?}; the constant {}% is {} — a BASIC error or {} is acceptable", line, got, item, v, allowed.clone().unwrap_or_else(|| "nothing else (out of range)".into()).trim()),
+                line,
+            );
+        }
+    }
+    Outcome::pass(allowed.is_none(), hash_str(item)).with_case(format!("PRINT {}%", item))
 }
 
 // ------------------------------------------------------------------ FOR/NEXT on an Integer control variable
@@ -526,6 +577,7 @@ Non-trivial = an operand or the exact result lies within 2 of a 16-bit limit, or
             Sub::tape("binary_random_pairs", check_binary_random, 150_000, 8_000_000, 40),
             Sub::items("float_to_integer", gen_conv, check_conv, true),
             Sub::tape("for_next_integer", check_for, 40_000, 1_500_000, 40),
+            Sub::items("suffixed_constants", gen_suffixed, check_suffixed, true),
         ],
     }
 }
